@@ -82,7 +82,7 @@ func subsets(univ []int) [][]int {
 func init() {
 	Register(&Prop{ID: "C02",
 		Meta: Meta{Level: "exploration",
-			Rule: "real Client and real Serve in two simulated processes; host and plugin each configured with a set of application versions (VersionedPlugins, optionally the lowest one through the legacy ProtocolVersion+Plugins fields), each version's plugin set speaking net/rpc or gRPC and answering an identity tag v<k>/<proto>; the version list handed to the plugin is left intact, deleted (old host) or partly corrupted by a runner wrapper. Complete enumeration of all pairs of non-empty subsets of {1,2,3} x all 8 protocol assignments x legacy folding on neither/host/plugin side (1176 runs), plus version 0, sets over {0..4}, corrupted lists and schedule noise in the seeded part. Oracle = reference: highest common version, else (no list) the plugin's lowest, else start error naming the incompatibility with the process terminated; compared against the version field of the raw handshake line (kernel tap), NegotiatedVersion(), Protocol() and the tag answered through a dispensed client",
+			Rule:       "real Client and real Serve in two simulated processes; host and plugin each configured with a set of application versions (VersionedPlugins, optionally the lowest one through the legacy ProtocolVersion+Plugins fields), each version's plugin set speaking net/rpc or gRPC and answering an identity tag v<k>/<proto>; the version list handed to the plugin is left intact, deleted (old host) or partly corrupted by a runner wrapper. Complete enumeration of all pairs of non-empty subsets of {1,2,3} x all 8 protocol assignments x legacy folding on neither/host/plugin side (1176 runs), plus version 0, sets over {0..4}, corrupted lists and schedule noise in the seeded part. Oracle = reference: highest common version, else (no list) the plugin's lowest, else start error naming the incompatibility with the process terminated; compared against the version field of the raw handshake line (kernel tap), NegotiatedVersion(), Protocol() and the tag answered through a dispensed client",
 			Exhaustive: "all pairs of non-empty subsets of {1,2,3} x protocol assignment x legacy folding {none, host, plugin}"},
 		Plan: func(tier string, seed uint64, stage int, prev []*h.Result) []*k.Spec {
 			if stage > 0 {
